@@ -8,7 +8,7 @@ import ast
 
 from .. import e1
 from ..astx import self_attr, walk_no_nested, dotted, call_name, parent, resolve_local, func_params, \
-    flatten_conditions, dominating_conditions
+    flatten_conditions, dominating_conditions, terminates, block_of, decorator_names
 from ..core import norm
 from .. import pat
 
@@ -79,6 +79,13 @@ def r03a(ctx, only=None):
                 inside = {id(x) for a in cached for x in ast.walk(a)}
                 sb = sb + [s_ for s_ in e1.extract(init.node, "bounds") if id(s_.node) in inside]
         rb, cb, ub, delegate = roots_and_consts(m, q, sb, zero)
+        if not rb and not cb and not delegate:
+            # the summing may sit in a same-class helper that bounds() calls (`total = self._sub_edit_bounds()`)
+            from ..astx import class_helpers
+            for h_ in class_helpers(m, fb.cls, fb, depth=1)[1:]:
+                if h_.node.name not in ("bounds", "edits", "tighten_bounds", "is_complete", "__init__") and not decorator_names(h_.node):
+                    sb = sb + e1.extract(h_.node, "bounds")
+            rb, cb, ub, delegate = roots_and_consts(m, q, sb, zero)
         re_, ce, ue, _ = roots_and_consts(m, q, se, zero)
         n += 1
         if not rb and not cb and not delegate:
@@ -243,6 +250,9 @@ def r03d(ctx):
         why = "no `while <cell>.tighten_bounds()` loop precedes the call"
         for w in loops:
             t = ast.unparse(w.test).replace(" ", "")
+            if isinstance(w.test, ast.Call) and isinstance(w.test.func, ast.Attribute) and isinstance(w.test.func.value, ast.Name) and not w.test.args:
+                # `cell = self.edit_matrix[row][col]; while cell.tighten_bounds():` - the cell held in a single-assignment local
+                t = ast.unparse(resolve_local(g.node, w.test.func.value)).replace(" ", "") + f".{w.test.func.attr}()"
             if cell and t == f"{cell}.tighten_bounds()".replace(" ", ""):
                 brk = [b for b in ast.walk(w) if isinstance(b, ast.Break)]
                 if brk:
@@ -479,7 +489,12 @@ def r03c(ctx):
         if isinstance(n, ast.If) and isinstance(n.test, ast.Call) and call_name(n.test) == "isinstance" \
                 and "CompoundEdit" in ast.unparse(n.test.args[1]):
             body = ast.unparse(ast.Module(body=n.body, type_ignores=[]))
-            orelse = ast.unparse(ast.Module(body=n.orelse, type_ignores=[]))
+            rest = n.orelse
+            if not rest and terminates(n.body):
+                # guard-clause form: `if isinstance(...): ...; continue` followed by the atomic-edit arm
+                lst, idx = block_of(n)
+                rest = lst[idx + 1:] if lst else []
+            orelse = ast.unparse(ast.Module(body=rest, type_ignores=[]))
             if ".edits()" in body and "yield" in orelse and "yield" not in body:
                 ok = True
     if ok:
